@@ -3127,3 +3127,632 @@ pub fn sample_json(h: &History) -> Json {
         "first_hook_points": h.points.iter().take(24).map(|p| format!("{}@{}:{:?}", p.0, p.1, p.2)).collect::<Vec<_>>(),
     })
 }
+
+// ---------------------------------------------------------------------------
+// stress family: the truncation accounting while SEVERAL senders truncate at the same time
+// ---------------------------------------------------------------------------
+//
+// The scripted histories above have a handful of senders and truncate now and then, so the
+// conservation rule is next to never evaluated with two truncating sends overlapping in time.
+// Here nearly every `send` truncates: tiny capacity, 2-16 sender threads doing nothing but plain
+// sends, many rounds. Two families, both pure accounting at quiescence (no timing):
+//
+// * parked   – the receiver exists but never runs while the senders send. Afterwards, through the
+//              public `metric_source()`:  sent == queue_full_truncated x capacity + queue_length.
+//              Then the receiver is run once to drain: the drained queue object (our own `LQ`)
+//              says how many `clear()` calls it saw and how many items each removed, the survivors
+//              must be a suffix of every sender's sequence.
+// * slow     – a real receiver thread (sync / tokio) with a slow processor runs next to the senders;
+//              items carry ids (`Q` / `Id`), so the lost items are known exactly:
+//              sent == delivered + queue_full_truncated x capacity (+ nothing pending after the
+//              receiver exited), lost == union of what the truncations removed, every truncation
+//              removed exactly one full queue (a run contiguous in every sender's order).
+
+/// Queue type of the parked family: counts what `clear()` did; the counters travel with the queue
+/// object (no receiver swaps it while the senders run).
+pub struct LQ {
+    pub items: Vec<u64>,
+    pub clears: u64,
+    pub removed: u64,
+    pub min_cleared: u64,
+    pub max_cleared: u64,
+    /// truncations done while another sender that had already truncated inside its current `send`
+    /// call had not yet returned from it (measured rounds only)
+    pub overlapping: u64,
+    /// consecutive truncations done by different threads (measured rounds only)
+    pub handovers: u64,
+    last_by: u32,
+}
+
+static STRESS_MEASURE: AtomicU32 = AtomicU32::new(0);
+/// truncating `send` calls that have truncated and not yet returned (measured rounds only)
+static STRESS_TRUNC_INFLIGHT: AtomicU32 = AtomicU32::new(0);
+
+thread_local! {
+    static STRESS_TID: Cell<u32> = const { Cell::new(0) };
+    static STRESS_DID_TRUNC: Cell<bool> = const { Cell::new(false) };
+}
+
+impl Channel for LQ {
+    type Item = u64;
+
+    fn new() -> Self {
+        LQ { items: Vec::new(), clears: 0, removed: 0, min_cleared: u64::MAX, max_cleared: 0, overlapping: 0, handovers: 0, last_by: 0 }
+    }
+
+    fn with_capacity(hint: usize) -> Self {
+        let mut q = LQ::new();
+        q.items = Vec::with_capacity(hint.min(1 << 12));
+        q
+    }
+
+    fn push(&mut self, item: u64) {
+        self.items.push(item);
+    }
+
+    fn len(&self) -> usize {
+        self.items.len()
+    }
+
+    fn clear(&mut self) {
+        let n = self.items.len() as u64;
+        self.items.clear();
+        self.clears += 1;
+        self.removed += n;
+        self.min_cleared = self.min_cleared.min(n);
+        self.max_cleared = self.max_cleared.max(n);
+        if STRESS_MEASURE.load(std::sync::atomic::Ordering::Relaxed) != 0 {
+            let me = STRESS_TID.with(|t| t.get());
+            if me != self.last_by && self.last_by != 0 {
+                self.handovers += 1;
+            }
+            self.last_by = me;
+            STRESS_DID_TRUNC.with(|d| d.set(true));
+            if STRESS_TRUNC_INFLIGHT.fetch_add(1, SeqCst) >= 1 {
+                self.overlapping += 1;
+            }
+        }
+    }
+}
+
+struct GrabAny(RefCell<BTreeMap<String, u64>>);
+
+impl emit::metric::sampler::Sampler for GrabAny {
+    fn metric<P: emit::Props>(&self, m: emit::metric::Metric<P>) {
+        let v = m.value().by_ref().cast::<u64>().or_else(|| m.value().by_ref().cast::<usize>().map(|v| v as u64));
+        if let Some(v) = v {
+            self.0.borrow_mut().insert(m.name().to_string(), v);
+        }
+    }
+}
+
+/// The public metrics of a channel of any queue type.
+pub fn read_metrics_of<T: Channel>(src: &eb::ChannelMetrics<T>) -> BTreeMap<String, u64> {
+    use emit::metric::Source;
+    let g = GrabAny(RefCell::new(BTreeMap::new()));
+    src.sample_metrics(&g);
+    g.0.into_inner()
+}
+
+fn join_within(h: thread::JoinHandle<()>, limit: Duration) -> Option<thread::Result<()>> {
+    let start = std::time::Instant::now();
+    while !h.is_finished() {
+        if start.elapsed() > limit {
+            return None;
+        }
+        thread::sleep(Duration::from_micros(200));
+    }
+    Some(h.join())
+}
+
+#[derive(Clone, Debug)]
+pub struct StressPlan {
+    pub seed: u64,
+    pub round: u64,
+    /// "parked" | "slow"
+    pub family: &'static str,
+    pub cap: usize,
+    pub senders: usize,
+    pub per_sender: u64,
+    /// parked: the senders also keep the overlap counters (two extra atomic operations per truncation)
+    pub measured: bool,
+    /// slow: receiver flavour and time spent per batch
+    pub flavour: Flavour,
+    pub slow_us: u32,
+    /// slow: every sender yields after this many sends (0 = never), so that the receiver gets a share
+    pub yield_every: u32,
+}
+
+impl StressPlan {
+    pub fn to_json(&self) -> Json {
+        json!({"section": "stress", "family": self.family, "seed": self.seed, "round": self.round, "capacity": self.cap, "senders": self.senders,
+               "sends_per_sender": self.per_sender, "overlap_counters": self.measured,
+               "receiver": if self.family == "parked" { "never runs while the senders send".to_string() } else { format!("{:?}, {} us per batch; senders yield every {} sends", self.flavour, self.slow_us, self.yield_every) }})
+    }
+}
+
+/// `size`: 0 = sanitizer lane (tiny), 1 = quick, 2 = thorough.
+pub fn gen_stress(seed: u64, round: u64, size: u8) -> StressPlan {
+    let mut g = Rng::stream(seed, &[6, 9, round]);
+    // two parked rounds, then a slow one
+    let family = if round % 3 == 2 { "slow" } else { "parked" };
+    let cap = match g.below(6) {
+        0 => 1,
+        1 => 2,
+        2 => 3,
+        3 => 4,
+        _ => g.range(1, 8) as usize,
+    };
+    let tokio_ok = cfg!(feature = "tokio") && size > 0;
+    let flavour = if tokio_ok && g.chance(1, 3) { Flavour::Tokio } else { Flavour::Sync };
+    let slow_us = *g.pick(&[0u32, 5, 20, 60, 150, 400]);
+    let (senders, per_sender) = match (family, size) {
+        (_, 0) => (g.range(2, 4) as usize, g.range(300, 1500)),
+        ("parked", _) => (g.range(2, 16) as usize, g.range(10_000, 100_000)),
+        (_, 1) => (g.range(2, 12) as usize, g.range(2_000, 10_000)),
+        _ => (g.range(2, 16) as usize, g.range(10_000, 30_000)),
+    };
+    let yield_every = *g.pick(&[0u32, 0, 1, 4, 32]);
+    StressPlan { seed, round, family, cap, senders, per_sender, measured: round % 2 == 1, flavour, slow_us, yield_every }
+}
+
+#[derive(Default)]
+pub struct StressSeen {
+    pub sends: u64,
+    pub truncations: u64,
+    pub overlapping: u64,
+}
+
+pub fn stress_round(r: &mut Report, prop: &str, p: &StressPlan) -> StressSeen {
+    r.eval();
+    match p.family {
+        "parked" => stress_parked(r, prop, p),
+        _ => stress_slow(r, prop, p),
+    }
+}
+
+fn stress_sig(prop: &str, what: &str) -> String {
+    format!("{}:conservation:concurrent-truncations:{}", prop, what)
+}
+
+fn stress_parked(r: &mut Report, prop: &str, p: &StressPlan) -> StressSeen {
+    let case = p.to_json();
+    let cap = p.cap as u64;
+    let (sender, receiver) = eb::bounded::<LQ>(p.cap);
+    let metrics_src = sender.metric_source();
+    let sender = Arc::new(sender);
+    STRESS_MEASURE.store(p.measured as u32, SeqCst);
+    STRESS_TRUNC_INFLIGHT.store(0, SeqCst);
+    let barrier = Arc::new(Barrier::new(p.senders));
+    let handles: Vec<thread::JoinHandle<()>> = (0..p.senders)
+        .map(|ti| {
+            let (sender, barrier) = (sender.clone(), barrier.clone());
+            let (n, measured) = (p.per_sender, p.measured);
+            thread::Builder::new()
+                .name("c06s-tx".into())
+                .spawn(move || {
+                    STRESS_TID.with(|t| t.set(ti as u32 + 1));
+                    barrier.wait();
+                    let base = (ti as u64 + 1) << 32;
+                    if measured {
+                        for k in 0..n {
+                            sender.send(base | k);
+                            if STRESS_DID_TRUNC.with(|d| d.replace(false)) {
+                                STRESS_TRUNC_INFLIGHT.fetch_sub(1, SeqCst);
+                            }
+                        }
+                    } else {
+                        for k in 0..n {
+                            sender.send(base | k);
+                        }
+                    }
+                })
+                .expect("spawn stress sender")
+        })
+        .collect();
+    let mut panicked = false;
+    for h in handles {
+        match join_within(h, Duration::from_secs(120)) {
+            Some(Ok(())) => {}
+            Some(Err(_)) => panicked = true,
+            None => {
+                STRESS_MEASURE.store(0, SeqCst);
+                r.inconclusive(format!("{} stress (parked receiver): a sender thread did not finish its plain sends within 120 s", prop));
+                return StressSeen::default();
+            }
+        }
+    }
+    STRESS_MEASURE.store(0, SeqCst);
+    if panicked {
+        r.violation(&format!("{}:panic:send:concurrent-truncations", prop), "a plain send panicked on a sender thread of the truncation stress scenario", case.clone());
+        return StressSeen::default();
+    }
+    // quiescence: every send has returned, nobody touches the channel
+    let sent = p.senders as u64 * p.per_sender;
+    let m = read_metrics_of(&metrics_src);
+    let counted = m.get("queue_full_truncated").copied();
+    let qlen = m.get("queue_length").copied();
+    let (counted, qlen) = match (counted, qlen) {
+        (Some(c), Some(q)) => (c, q),
+        _ => {
+            r.violation(&stress_sig(prop, "metrics-missing"), &format!("metric_source() did not report queue_full_truncated / queue_length: {:?}", m), case);
+            return StressSeen::default();
+        }
+    };
+    // drain: run the receiver once over what is left
+    drop(sender);
+    let slot: Arc<Mutex<Vec<LQ>>> = Arc::new(Mutex::new(Vec::new()));
+    let s2 = slot.clone();
+    let rx = eb::sync::spawn("c06s-rx", receiver, move |batch: LQ| {
+        s2.lock().unwrap().push(batch);
+        Ok(())
+    })
+    .expect("spawn receiver");
+    if join_within(rx, Duration::from_secs(20)).is_none() {
+        r.inconclusive(format!("{} stress (parked receiver): the receiver did not drain and exit within 20 s after the sender was dropped", prop));
+        return StressSeen::default();
+    }
+    let drained = std::mem::take(&mut *slot.lock().unwrap());
+    let detail = |extra: Json| {
+        let mut c = case.clone();
+        c["observed"] = extra;
+        c
+    };
+    let lost_by_metrics = sent as i128 - qlen as i128;
+    let explained = counted as i128 * cap as i128;
+    let numbers = json!({"sent": sent, "queue_full_truncated": counted, "queue_length": qlen, "capacity": cap,
+        "sent_minus_queue_length": lost_by_metrics.to_string(), "truncated_x_capacity": explained.to_string(),
+        "drained_batches": drained.len(), "drained_items": drained.iter().map(|q| q.items.len()).sum::<usize>(),
+        "clear_calls_seen_by_the_queue_object": drained.iter().map(|q| q.clears).sum::<u64>(),
+        "items_removed_by_clear_calls": drained.iter().map(|q| q.removed).sum::<u64>()});
+    // the rule, from public observations only
+    if lost_by_metrics != explained {
+        let (sig, what) = if lost_by_metrics > explained {
+            ("counted-less-than-lost", "fewer truncations were counted than items were lost")
+        } else {
+            ("counted-more-than-lost", "more truncations were counted than items were lost")
+        };
+        r.violation(
+            &stress_sig(prop, sig),
+            &format!(
+                "{}: {} sender threads x {} plain sends into a queue of capacity {} whose receiver never ran: {} sent, queue_length {} at quiescence, so {} items were discarded, but queue_full_truncated = {} explains {} (each truncation removes exactly a full queue)",
+                what, p.senders, p.per_sender, cap, sent, qlen, lost_by_metrics, counted, explained
+            ),
+            detail(numbers.clone()),
+        );
+    }
+    // the queue object's own account
+    let mut seen = StressSeen { sends: sent, ..Default::default() };
+    if drained.len() != 1 {
+        r.violation(
+            &stress_sig(prop, "drain-not-one-batch"),
+            &format!("the receiver had never run; draining {} pending item(s) produced {} on_batch calls", qlen, drained.len()),
+            detail(numbers.clone()),
+        );
+        return seen;
+    }
+    let q = &drained[0];
+    seen.truncations = q.clears;
+    seen.overlapping = q.overlapping;
+    r.observe("stress:parked:rounds", 1);
+    r.observe("stress:parked:sends", sent);
+    r.observe("stress:parked:truncations", q.clears);
+    if p.measured {
+        r.observe("stress:parked:measured-rounds:truncations", q.clears);
+        r.observe("stress:parked:measured-rounds:truncations-overlapping-another-truncating-send", q.overlapping);
+        r.observe("stress:parked:measured-rounds:truncations-handed-over-between-threads", q.handovers);
+    }
+    if q.items.len() as u64 != qlen {
+        r.violation(
+            &stress_sig(prop, "queue-length-differs-from-pending"),
+            &format!("queue_length said {} at quiescence, the receiver then drained {} item(s)", qlen, q.items.len()),
+            detail(numbers.clone()),
+        );
+    }
+    if q.removed + q.items.len() as u64 != sent {
+        r.violation(
+            &stress_sig(prop, "lost-without-truncation"),
+            &format!("{} sent, {} drained, the clear() calls removed {}: {} item(s) vanished without a truncation", sent, q.items.len(), q.removed, sent as i128 - q.removed as i128 - q.items.len() as i128),
+            detail(numbers.clone()),
+        );
+    }
+    if q.clears > 0 && (q.min_cleared != cap || q.max_cleared != cap) {
+        r.violation(
+            &stress_sig(prop, "truncation-of-non-full-queue"),
+            &format!("truncations removed between {} and {} items from a queue of capacity {}", q.min_cleared, q.max_cleared, cap),
+            detail(numbers.clone()),
+        );
+    }
+    if lost_by_metrics == explained && q.clears != counted {
+        r.violation(
+            &stress_sig(prop, "clear-calls-differ-from-counted"),
+            &format!("the queue object saw {} clear() calls, queue_full_truncated = {}", q.clears, counted),
+            detail(numbers.clone()),
+        );
+    }
+    // survivors: unique, really sent, and the newest of every sender
+    let mut newest: BTreeMap<u64, Vec<u64>> = BTreeMap::new();
+    let mut bad = None;
+    for id in &q.items {
+        let (who, n) = (id >> 32, id & 0xFFFF_FFFF);
+        if who == 0 || who > p.senders as u64 || n >= p.per_sender {
+            bad = Some(format!("item {:#x} was never sent", id));
+        }
+        newest.entry(who).or_default().push(n);
+    }
+    for (who, ns) in &newest {
+        for w in ns.windows(2) {
+            if w[1] != w[0] + 1 {
+                bad = Some(format!("survivors of sender {} are {:?}: not consecutive in its order", who, ns));
+            }
+        }
+        if ns.last() != Some(&(p.per_sender - 1)) {
+            bad = Some(format!("survivors of sender {} are {:?} but its last send was #{}: a later item was discarded while an earlier one was kept", who, ns, p.per_sender - 1));
+        }
+    }
+    if let Some(b) = bad {
+        r.violation(&stress_sig(prop, "survivors-not-the-newest"), &b, detail(numbers.clone()));
+    }
+    r.nontrivial(&("stress-parked", p.cap, p.senders, q.overlapping.min(3), q.handovers.min(3)));
+    if r.wants_sample() && p.round < 2 {
+        let (ov, ho) = (q.overlapping, q.handovers);
+        let measured = p.measured;
+        r.sample(move || json!({"case": case, "observed": numbers, "overlap_counters": if measured { json!({"overlapping_truncations": ov, "handovers": ho}) } else { Json::Null }}));
+    }
+    seen
+}
+
+fn stress_slow(r: &mut Report, prop: &str, p: &StressPlan) -> StressSeen {
+    let case = p.to_json();
+    let uid = NEXT_UID.fetch_add(1, SeqCst);
+    let (sender, receiver) = eb::bounded::<Q>(p.cap);
+    let metrics_src = sender.metric_source();
+    let sender = Arc::new(sender);
+    // (call stamp, items, truncations that hit the queue object while it was pending)
+    type Got = Vec<(u64, Vec<Id>, Vec<(u64, Vec<Id>)>)>;
+    let got: Arc<Mutex<Got>> = Arc::new(Mutex::new(Vec::new()));
+    let slow_us = p.slow_us;
+    let spend = move || {
+        if slow_us == 0 {
+        } else if slow_us < 30 {
+            for _ in 0..slow_us * 40 {
+                std::hint::spin_loop();
+            }
+        } else {
+            thread::sleep(Duration::from_micros(slow_us as u64));
+        }
+    };
+    let rx = match p.flavour {
+        #[cfg(feature = "tokio")]
+        Flavour::Tokio => {
+            let got = got.clone();
+            eb::tokio::spawn("c06s-rx", receiver, move |mut batch: Q| {
+                let call = stamp();
+                let items = std::mem::take(&mut batch.items);
+                let cleared = std::mem::take(&mut batch.cleared);
+                got.lock().unwrap().push((call, items, cleared));
+                async move {
+                    if slow_us > 0 {
+                        tokio::time::sleep(Duration::from_micros(slow_us as u64)).await;
+                    }
+                    Ok(())
+                }
+            })
+            .expect("spawn receiver")
+        }
+        _ => {
+            let got = got.clone();
+            eb::sync::spawn("c06s-rx", receiver, move |mut batch: Q| {
+                let call = stamp();
+                let items = std::mem::take(&mut batch.items);
+                let cleared = std::mem::take(&mut batch.cleared);
+                got.lock().unwrap().push((call, items, cleared));
+                spend();
+                Ok(())
+            })
+            .expect("spawn receiver")
+        }
+    };
+    let barrier = Arc::new(Barrier::new(p.senders));
+    let handles: Vec<thread::JoinHandle<Vec<(u64, u64)>>> = (0..p.senders)
+        .map(|ti| {
+            let (sender, barrier) = (sender.clone(), barrier.clone());
+            let (n, yield_every) = (p.per_sender, p.yield_every as u64);
+            thread::Builder::new()
+                .name("c06s-tx".into())
+                .spawn(move || {
+                    let mut win = Vec::with_capacity(n as usize);
+                    barrier.wait();
+                    for k in 0..n {
+                        let call = stamp();
+                        sender.send(Id { sc: uid, who: ti as u8, n: k as u32 });
+                        win.push((call, stamp()));
+                        if yield_every > 0 && k % yield_every == yield_every - 1 {
+                            thread::yield_now();
+                        }
+                    }
+                    win
+                })
+                .expect("spawn stress sender")
+        })
+        .collect();
+    let mut windows: Vec<Vec<(u64, u64)>> = Vec::new();
+    let mut stuck = false;
+    for h in handles {
+        let start = std::time::Instant::now();
+        while !h.is_finished() && start.elapsed() < Duration::from_secs(120) {
+            thread::sleep(Duration::from_micros(200));
+        }
+        if !h.is_finished() {
+            stuck = true;
+            continue;
+        }
+        match h.join() {
+            Ok(w) => windows.push(w),
+            Err(_) => {
+                r.violation(&format!("{}:panic:send:concurrent-truncations", prop), "a plain send panicked on a sender thread of the truncation stress scenario", case.clone());
+                stuck = true;
+            }
+        }
+    }
+    drop(sender);
+    let exited = join_within(rx, Duration::from_secs(30));
+    if stuck || exited.is_none() {
+        if exited.is_none() {
+            LEAKED_RECEIVERS.fetch_add(1, SeqCst);
+        }
+        r.inconclusive(format!("{} stress (slow receiver): senders or receiver did not finish within the watchdog", prop));
+        let _ = take_orphans(uid);
+        return StressSeen::default();
+    }
+    if let Some(Err(_)) = exited {
+        r.violation(&format!("{}:receiver-died:concurrent-truncations", prop), "the receiver thread died with a panic in the truncation stress scenario", case.clone());
+    }
+    let m = read_metrics_of(&metrics_src);
+    let counted = m.get("queue_full_truncated").copied().unwrap_or(u64::MAX);
+    let pending = m.get("queue_length").copied().unwrap_or(u64::MAX);
+    let got = std::mem::take(&mut *got.lock().unwrap());
+    let orphans = take_orphans(uid);
+    let cap = p.cap as u64;
+    let sent = p.senders as u64 * p.per_sender;
+    let sig_of = |what: &str| stress_sig(prop, what);
+
+    // delivered: exactly once, really sent, in every sender's order
+    let mut delivered: HashSet<Id> = HashSet::with_capacity(sent as usize);
+    let mut last_n: Vec<Option<u32>> = vec![None; p.senders];
+    let mut first_problem: Option<(String, String)> = None;
+    let mut note = |sig: String, what: String| {
+        if first_problem.is_none() {
+            first_problem = Some((sig, what));
+        }
+    };
+    let mut oversized = 0u64;
+    for (k, (_, items, _)) in got.iter().enumerate() {
+        if items.len() as u64 > cap {
+            oversized += 1;
+        }
+        for id in items {
+            if id.sc != uid || id.who as usize >= p.senders || id.n as u64 >= p.per_sender {
+                note(sig_of("invented-item"), format!("on_batch call #{} contains {:?} which no sender sent", k, id));
+                continue;
+            }
+            if !delivered.insert(*id) {
+                note(sig_of("duplicate"), format!("{}.{} was handed to the processor twice (second time in call #{})", id.who, id.n, k));
+            }
+            if let Some(prev) = last_n[id.who as usize] {
+                if id.n <= prev {
+                    note(sig_of("order:per-sender"), format!("{}.{} was delivered after {}.{}", id.who, id.n, id.who, prev));
+                }
+            }
+            last_n[id.who as usize] = Some(id.n);
+        }
+    }
+    // truncations: what each removed
+    let clears: Vec<&(u64, Vec<Id>)> = got.iter().flat_map(|g| g.2.iter()).chain(orphans.iter()).collect();
+    let mut cleared: HashSet<Id> = HashSet::new();
+    for (st, items) in clears.iter().map(|c| (c.0, &c.1)) {
+        if items.len() as u64 != cap {
+            note(sig_of("truncation-of-non-full-queue"), format!("the truncation at stamp {} removed {} items from a queue of capacity {}", st, items.len(), cap));
+        }
+        let mut per: BTreeMap<u8, Vec<u32>> = BTreeMap::new();
+        for id in items {
+            if !cleared.insert(*id) {
+                note(sig_of("truncated-twice"), format!("{}.{} was removed by two truncations", id.who, id.n));
+            }
+            if delivered.contains(id) {
+                note(sig_of("truncated-and-delivered"), format!("{}.{} was removed by a truncation and also delivered", id.who, id.n));
+            }
+            per.entry(id.who).or_default().push(id.n);
+        }
+        for (who, ns) in per {
+            // every send is accepted, so a run contiguous in the sender's order is a run of consecutive numbers
+            if ns.windows(2).any(|w| w[1] != w[0] + 1) {
+                note(sig_of("truncation-not-a-whole-queue-run"), format!("a truncation removed items {:?} of sender {}: not contiguous in its order", ns, who));
+            }
+        }
+    }
+    let lost = sent - delivered.len() as u64;
+    let numbers = json!({"sent": sent, "delivered": delivered.len(), "lost": lost, "queue_full_truncated": counted, "capacity": cap,
+        "queue_length_after_receiver_exit": pending, "truncation_events_seen_by_the_queue_objects": clears.len(),
+        "items_removed_by_them": cleared.len(), "on_batch_calls": got.len()});
+    let detail = |extra: Json| {
+        let mut c = case.clone();
+        c["observed"] = numbers.clone();
+        if !extra.is_null() {
+            c["witness"] = extra;
+        }
+        c
+    };
+    if let Some((sig, what)) = first_problem {
+        r.violation(&sig, &what, detail(Json::Null));
+    }
+    if oversized > 0 {
+        r.violation(&sig_of("batch-larger-than-capacity"), &format!("{} batch(es) were larger than the capacity {}", oversized, cap), detail(Json::Null));
+    }
+    if pending != 0 {
+        r.violation(&sig_of("pending-after-receiver-exit"), &format!("queue_length is {} after the sender was dropped and the receiver ran to completion", pending), detail(Json::Null));
+    }
+    // the rule: delivered + truncations x capacity (+ pending = 0) == sent
+    if counted == u64::MAX || lost as u128 != counted as u128 * cap as u128 {
+        let less = counted != u64::MAX && (lost as u128) > counted as u128 * cap as u128;
+        let (sig, what) = if less {
+            ("counted-less-than-lost", "fewer truncations were counted than items were lost")
+        } else {
+            ("counted-more-than-lost", "more truncations were counted than items were lost")
+        };
+        r.violation(
+            &sig_of(sig),
+            &format!(
+                "{}: {} sender threads x {} plain sends, capacity {}, slow receiver: {} sent, {} delivered, nothing pending, so {} were discarded ({} truncation events removing {} items were seen by the queue objects), but queue_full_truncated = {}",
+                what, p.senders, p.per_sender, cap, sent, delivered.len(), lost, clears.len(), cleared.len(), counted
+            ),
+            detail(Json::Null),
+        );
+    }
+    // which items were lost: exactly those the truncations removed
+    if cleared.len() as u64 != lost {
+        let mut missing: Vec<Id> = Vec::new();
+        for who in 0..p.senders {
+            for n in 0..p.per_sender {
+                let id = Id { sc: uid, who: who as u8, n: n as u32 };
+                if !delivered.contains(&id) && !cleared.contains(&id) {
+                    missing.push(id);
+                    if missing.len() >= 24 {
+                        break;
+                    }
+                }
+            }
+        }
+        r.violation(
+            &sig_of("lost-without-truncation"),
+            &format!("{} item(s) were neither delivered nor removed by a truncation (the truncations removed {}, {} are gone), e.g. {:?}", lost as i128 - cleared.len() as i128, cleared.len(), lost, missing.first().map(|i| format!("{}.{}", i.who, i.n))),
+            detail(json!({"missing": ids_json(&missing)})),
+        );
+    }
+    // how concurrent was it? truncations whose stamp lies inside the call windows of >= 2 sends
+    let mut with_company = 0u64;
+    for (st, _) in clears.iter().map(|c| (c.0, &c.1)) {
+        let mut inside = 0;
+        for w in &windows {
+            // first window whose return stamp is after the truncation
+            let i = w.partition_point(|x| x.1 < st);
+            if i < w.len() && w[i].0 < st {
+                inside += 1;
+            }
+        }
+        if inside >= 2 {
+            with_company += 1;
+        }
+    }
+    r.observe("stress:slow:rounds", 1);
+    r.observe("stress:slow:sends", sent);
+    r.observe("stress:slow:delivered", delivered.len() as u64);
+    r.observe("stress:slow:on_batch-calls", got.len() as u64);
+    r.observe("stress:slow:truncations", clears.len() as u64);
+    r.observe("stress:slow:truncations-while-two-or-more-sends-were-in-flight", with_company);
+    r.nontrivial(&("stress-slow", p.cap, p.senders, p.flavour, with_company.min(3), (got.len() as u64).min(3)));
+    if r.wants_sample() && p.round < 3 {
+        r.sample(|| json!({"case": case, "observed": numbers, "truncations_while_two_or_more_sends_in_flight": with_company}));
+    }
+    StressSeen { sends: sent, truncations: clears.len() as u64, overlapping: with_company }
+}
